@@ -6,7 +6,7 @@
   History: every defect behind the former `_refuted` theorems (C19_split_sections, C19_split_with_sizes, C19_bool_mask,
   C19_ellipsis, C19_narrow_method, C19_flow_*, C19_demote_flow, C19_narrow_negdim, C19_copy_flow, C19_from_images_axes,
   C19_append_axes, C19_flip, C19_roll, C19_index_select, C19_permute, C19_aligned_refuted) has been repaired in /repo
-  (commits 31c6369, a040c96, e158d15, e37fd36, 018b42a, 5463a8b, d25ad21 and PENDING-F19); the model follows the repaired
+  (commits 31c6369, a040c96, e158d15, e37fd36, 018b42a, 5463a8b, d25ad21 and 05e9301 / c94e057); the model follows the repaired
   code, the operation classes are part of `goodOp` / `C19_demote` / `C19_copy_pickle`, and the old witnesses are kept as
   positive instances (`C19_repaired_witnesses_aligned`, `C19_flow_batch_size_demoted`). No refutation is left.
 
@@ -140,7 +140,7 @@ example : step none (.narrowF 0 1 2) (.one (mkInput false 3 2 [4, 5] 0 0)) =
 
 /-- the former witnesses of the missing batch-size test in `FlowFields._torch_function_result` (repaired by e158d15):
     index_select(0,[2,0]), mean(0,keepdim), torch.narrow(x,0,1,2), repeat(2,1,1,1), expand(3,-1,-1,-1), cat(dim=-4)
-    on flow-field batches now return plain tensors (index_select: since PENDING-F19 a FlowFields with the two selected
+    on flow-field batches now return plain tensors (index_select: since 05e9301 / c94e057 a FlowFields with the two selected
     grids). -/
 theorem C19_flow_batch_size_demoted :
     step none (.indexSelect 0 [2, 0]) (.one (mkInput true 3 2 [2, 2] 0 1)) =
@@ -182,7 +182,7 @@ theorem C19_append_axes_mismatch_raises (a ao : Nat) (t t' : Raw) (gs gs' : List
   simp only [step, stepOne]
   exact append_mismatch_raises a ao t t' gs gs' h
 
-/-! ### reordering / re-selecting batch entries and moving the batch dimension (repaired by PENDING-F19) -/
+/-! ### reordering / re-selecting batch entries and moving the batch dimension (repaired by 05e9301 / c94e057) -/
 
 /-- `flip` along any dims: the grids are reversed exactly when the batch dimension is flipped -/
 theorem C19_flip_aligned (a0 : Nat) (other : Option SVal) (dims : List Int) (v : Val) (ho : OtherOK a0 other)
@@ -212,7 +212,7 @@ theorem C19_permute_demoted (f : Bool) (t : Raw) (gs : List GridTag) (a : Nat) (
     batchTF_nogrid_plain _ f t gs a other rfl rfl rfl rfl (torchSem_transpose_not_ts d0 d1 t _)⟩
 
 /-- the former witnesses of the defects repaired in /repo (31c6369 narrow / `batch[...]`, a040c96 split sections,
-    e37fd36 boolean mask, 018b42a negative dim, d25ad21 from_images axes, 5463a8b copy, PENDING-F19 flip / roll / index_select / permute) are aligned or demoted now — concrete instances of `C19_aligned_partial` -/
+    e37fd36 boolean mask, 018b42a negative dim, d25ad21 from_images axes, 5463a8b copy, 05e9301 / c94e057 flip / roll / index_select / permute) are aligned or demoted now — concrete instances of `C19_aligned_partial` -/
 theorem C19_repaired_witnesses_aligned :
     AlignedV 0 (step none (.splitL [1, 2] .dflt) (.one (mkInput false 3 1 [2, 2] 0 0))) ∧
       AlignedV 0 (step none (.splitWS [1, 2] .dflt) (.one (mkInput false 3 1 [2, 2] 0 0))) ∧
